@@ -140,7 +140,8 @@ def support_front(ctx, pend, ins, impl, dexe, sexe):
     change and there must be no sanitizer report; LEAK only counts for accepted (valid) programs."""
     cov = ctx.cov
     rng = ctx.rng
-    sel = [i for i, (k, x) in enumerate(ins) if k.startswith(("corpus", "pathological", "example"))]
+    # (quick tier: inputs above 1 MB only go to the plain build -- the instrumented builds need tens of seconds on them)
+    sel = [i for i, (k, x) in enumerate(ins) if k.startswith(("corpus", "pathological", "example")) and (ctx.thorough or len(x) <= 1000000)]
     rest = [i for i in range(len(ins)) if i not in set(sel)]
     sel += rng.sample(rest, min(len(rest), 1500 if ctx.thorough else 300))
     if pend.is_active("front:ERR lex:unterminated"):
@@ -236,6 +237,9 @@ def semantic_tie(ctx, pend, oexe, exes):
     rng = ctx.rng
     progs = [(k, t, "ERR") for k, t in G.semantic_errors(rng, extra=1 if ctx.thorough else 0)]
     progs += [("unsolvable:" + k, t, "UNSAT") for k, t in G.unsolvable_programs()]
+    # modeling errors in declarations and in time-point arithmetic, object variables without values, same-named predicates, long
+    # operator chains -- with valid programs of the same shapes
+    progs += G.structural_programs(rng, extra=1 if ctx.thorough else 0)
     # valid programs of the same shapes (non-zero divisors, linear products, well-typed connectives): must be accepted
     for _ in range(400 if ctx.thorough else 60):
         names = ["x%d" % i for i in range(rng.choice([0, 1, 2]))]
@@ -263,15 +267,17 @@ def semantic_tie(ctx, pend, oexe, exes):
             got = eval_class(out[i])
             if got == want:
                 # the reported error must be the one the program deserves (diagnostic class, not wording)
-                need = {"div0": "zero", "nonlinear": "non-linear"}.get(fam)
-                if want == "ERR" and need and need not in out[i]:
+                need = {"div0": ("zero",), "nonlinear": ("non-linear",), "tp-arith": ("difference logic", "time-point"), "inheritance": ("cyclic",),
+                        "enum-union": ("cyclic", "not an enum"), "chain": ("nesting",)}.get(fam)
+                if want == "ERR" and need and not any(n in out[i] for n in need):
                     bad += 1
                     pend.violation("semantic:%s:wrong-diagnostic" % fam, {"kind": "semantic-error-program", "family": k, "program": t, "build": name,
-                                                                        "expected_diagnostic": need, "implementation": out[i][:300]})
+                                                                        "expected_diagnostic": " / ".join(need), "implementation": out[i][:300]})
                 continue
             bad += 1
-            rep = {"kind": "semantic-error-program", "family": k, "program": t, "build": name, "expected_outcome": want, "implementation": out[i][:300],
-                   "model": model[i], "replay_cmd": "echo %s | <h_eval of that build>" % t.encode("latin1").hex()}
+            rep = {"kind": "semantic-error-program", "family": k, "program": t[:4000], "program_len": len(t), "build": name, "expected_outcome": want, "implementation": out[i][:300],
+                   "model": model[i][:200], "replay_cmd": ("echo %s | <h_eval of that build>" % t.encode("latin1").hex()) if len(t) <= 4000 else
+                   "regenerate: the program of family '%s' in lang_gen.structural_programs" % k}
             pend.violation("semantic:%s:%s:%s" % (fam, want, got), rep)
     cov["semantic_errors"] = {"programs": len(progs), "builds": sorted(exes), "by_family": dist, "model_predictions": {c: sum(1 for x in model if x.startswith(c)) for c in ("SEMERR", "OK", "SKIP")},
                               "disagreements": bad}
